@@ -39,6 +39,9 @@ type codecArgs struct {
 	PKind   int    `json:"pkind"` // 0 nil, 1 typed, 2 foreign with an int value, 3 foreign with a wrong-typed value
 	Param   int    `json:"param"`
 	Seed    uint64 `json:"seed"`
+	// FullFirst: every frame but the last has the required length, only the last one has FLen (a truncated
+	// later frame reaches an encoder object that has already accepted a full frame of the same geometry)
+	FullFirst bool `json:"full_first,omitempty"`
 }
 
 func (a codecArgs) String() string { b, _ := json.Marshal(a); return string(b) }
@@ -365,6 +368,19 @@ func genCodec(r *Rand, ti tsInfo, nRandom int) []codecArgs {
 		a.FLen = fl
 		add(a)
 	}
+	// a later frame of a multi-frame object is short (1 byte, half, one byte) after full frames
+	for _, nf := range []int{2, 3} {
+		for _, spp := range []int{1, 3} {
+			b := base
+			b.SPP, b.NFrames, b.FullFirst = spp, nf, true
+			need := fin(b).need()
+			for _, fl := range []int{need - 1, need / 2, 1, 0} {
+				a := b
+				a.FLen = fl
+				add(a)
+			}
+		}
+	}
 	for pk := 0; pk <= 3; pk++ {
 		vals := []int{ti.lo - 1, ti.lo, ti.hi, ti.hi + 1, -1, 0, 1, 256}
 		if ti.short == ".81" {
@@ -431,7 +447,11 @@ func c17Codec(c *Ctx) {
 		if !a.NilOld {
 			s := rcodec.NewTestPixelData(a.frameInfo())
 			for f := 0; f < a.NFrames; f++ {
-				_ = s.AddFrame(pkgArgs{Len: a.FLen, P: a.BS, Seed: a.Seed + uint64(f)}.buffer())
+				fl := a.FLen
+				if a.FullFirst && f < a.NFrames-1 {
+					fl = a.need()
+				}
+				_ = s.AddFrame(pkgArgs{Len: fl, P: a.BS, Seed: a.Seed + uint64(f)}.buffer())
 			}
 			src = s
 		}
